@@ -746,8 +746,8 @@ func (c *Config) InstallHandlers(hi HandlerInstaller, baseURL string) (shutdown 
 		}
 	}
 
-	hi.Handle("/debug/vars", expvarHandler{})
-	hi.Handle("/debug/pprof/", profileHandler{})
+	hi.Handle("/debug/vars", auth.RequireAuth(expvarHandler{}, auth.OpAll))
+	hi.Handle("/debug/pprof/", auth.RequireAuth(profileHandler{}, auth.OpAll))
 	hi.Handle("/debug/goroutines", auth.RequireAuth(http.HandlerFunc(dumpGoroutines), auth.OpRead))
 	hi.Handle("/debug/config", auth.RequireAuth(configHandler{config}, auth.OpAll))
 	hi.Handle("/debug/logs/", auth.RequireAuth(http.HandlerFunc(logsHandler), auth.OpAll))
